@@ -4,6 +4,7 @@ C17 — reading never writes.
 import SC.Lemmas.Seq
 import SC.Lemmas.Buffer
 import SC.Lemmas.BufRead
+import SC.FS
 namespace SC.Props
 open SC
 
@@ -25,6 +26,20 @@ theorem C17_reads_pure (s : State) (prog : List (Handle × Op)) (hr : ∀ p ∈ 
     simp only [List.foldl]
     rw [ih _ (fun q hq => hr q (List.mem_cons_of_mem _ hq))]
     exact call_read_stores s p.1 p.2 (hr p List.mem_cons_self)
+
+/-- C17 at the level of file operations (L4): any number of loads, of any files, in any order,
+leaves the disk — committed contents and pending bytes of EVERY path — exactly as it was, and a
+crash at any instant during them can only show what a crash before them could show.  In
+particular a missing file stays missing and other writers' temporary files stay untouched. -/
+theorem C17_loads_leave_the_disk (d : FS.Disk) (targets : List FS.Path) :
+    FS.run d (targets.flatMap FS.loadProgram) = d ∧
+    ∀ p, FS.crashContents d (targets.flatMap FS.loadProgram) p = FS.observe d p := by
+  have h : targets.flatMap FS.loadProgram = [] := by
+    induction targets with
+    | nil => rfl
+    | cons t ts ih => simp [List.flatMap_cons, FS.loadProgram, ih]
+  rw [h]
+  exact ⟨rfl, fun _ => rfl⟩
 
 /-- C17 (buffered): a file whose buffered copy was only read is never written by any flush —
 at the exit of any context or forced by the capacity — and the flush never raises, whatever
